@@ -893,12 +893,18 @@ func (x *Exec) convertTo(st *State, v Val, t types.Type) Val {
 		return v
 	}
 	if inf := x.vc.info(ts); inf != nil && inf.Kind == kOpaque {
-		// boxing a concrete value into an interface: injective per source sort, never nil unless the source is a nil pointer
-		fn := "box_" + sanitize(v.Sort) + "_to_" + ts
-		x.vc.declFun(fn, []string{v.Sort}, ts)
-		x.vc.termFact(fmt.Sprintf("(forall ((a!b %s) (b!b %s)) (! (=> (= (%s a!b) (%s b!b)) (= a!b b!b)) :pattern ((%s a!b) (%s b!b))))", v.Sort, v.Sort, fn, fn, fn, fn))
+		// interface to interface: the dynamic value is carried over, nil stays nil
+		if sinf := x.vc.info(v.Sort); sinf != nil && sinf.Kind == kOpaque && strings.HasPrefix(v.Sort, "I_") {
+			fn := "conv_" + v.Sort + "_to_" + ts
+			x.vc.declFun(fn, []string{v.Sort}, ts)
+			x.vc.termFact(fmt.Sprintf("(forall ((a!b %s)) (! (= (= (%s a!b) %s) (= a!b %s)) :pattern ((%s a!b))))", v.Sort, fn, x.vc.nilTerm(ts), x.vc.nilTerm(v.Sort), fn))
+			x.vc.termFact(fmt.Sprintf("(forall ((a!b %s) (b!b %s)) (! (=> (= (%s a!b) (%s b!b)) (= a!b b!b)) :pattern ((%s a!b) (%s b!b))))", v.Sort, v.Sort, fn, fn, fn, fn))
+			return Val{T: fmt.Sprintf("(%s %s)", fn, v.T), Sort: ts, GoT: t}
+		}
+		// boxing a concrete value into an interface: one injective constructor per dynamic Go type,
+		// with a type tag and an inverse (used by type switches and type assertions); never nil
+		fn, _, _ := x.boxFuncs(v, ts)
 		r := Val{T: fmt.Sprintf("(%s %s)", fn, v.T), Sort: ts, GoT: t}
-		x.vc.termFact(not(eq(r.T, x.vc.nilTerm(ts))))
 		return r
 	}
 	if (v.Sort == "Int" || v.Sort == "(_ BitVec 64)") && ts == "Real" {
@@ -1069,26 +1075,99 @@ func (x *Exec) execTypeSwitch(st *State, s *ast.TypeSwitchStmt, label string) *f
 	case *ast.ExprStmt:
 		operand = a.X.(*ast.TypeAssertExpr).X
 	}
-	x.ev(st, operand)
-	x.vc.note("type switch: every clause taken nondeterministically, bound variable unconstrained")
+	opv := x.ev(st, operand)
+	opv = x.name("tsw", opv)
+	isIface := func(t types.Type) bool {
+		_, ok := t.Underlying().(*types.Interface)
+		return ok
+	}
+	precise := x.vc.info(opv.Sort) != nil && x.vc.info(opv.Sort).Kind == kOpaque
+	// condition of a clause: the dynamic type tag equals one of the listed concrete types (nil: the nil interface)
+	clauseCond := func(cc *ast.CaseClause) (string, bool) {
+		var ds []string
+		for _, te := range cc.List {
+			if id, ok := te.(*ast.Ident); ok && id.Name == "nil" {
+				ds = append(ds, eq(opv.T, x.vc.nilTerm(opv.Sort)))
+				continue
+			}
+			tt := x.typeOf(te)
+			if tt == nil || isIface(tt) {
+				return "", false
+			}
+			_, _, id := x.boxFuncsFor(x.vc.sortOf(tt), tt, opv.Sort)
+			ds = append(ds, fmt.Sprintf("(= (dyntag_%s %s) %d)", opv.Sort, opv.T, id))
+		}
+		return or(ds...), true
+	}
+	allPrecise := precise
+	for _, c := range s.Body.List {
+		if cc := c.(*ast.CaseClause); cc.List != nil {
+			if _, ok := clauseCond(cc); !ok {
+				allPrecise = false
+			}
+		}
+	}
+	if !allPrecise {
+		x.vc.note("type switch with interface-typed cases: clauses taken nondeterministically, bound variable unconstrained")
+	}
 	var ends []*State
 	hasDefault := false
+	rest := st
+	var defaultClause *ast.CaseClause
 	for _, c := range s.Body.List {
 		cc := c.(*ast.CaseClause)
 		if cc.List == nil {
 			hasDefault = true
+			defaultClause = cc
+			if allPrecise {
+				continue
+			}
 		}
-		cst := st.clone()
-		br := x.vc.fresh("tsw", "Bool")
-		x.assume(cst, br)
-		if obj := x.implicitObj(cc); obj != nil {
-			cst.vars[obj] = x.havocVal(cst, obj.Name(), obj.Type())
+		cst := rest.clone()
+		if allPrecise {
+			cond, _ := clauseCond(cc)
+			x.assume(cst, cond)
+			x.assume(rest, not(cond))
+			if obj := x.implicitObj(cc); obj != nil {
+				if len(cc.List) == 1 {
+					if tt := x.typeOf(cc.List[0]); tt != nil && !isIface(tt) {
+						_, unbox, _ := x.boxFuncsFor(x.vc.sortOf(tt), tt, opv.Sort)
+						cst.vars[obj] = Val{T: fmt.Sprintf("(%s %s)", unbox, opv.T), Sort: x.vc.sortOf(tt), GoT: tt}
+					} else {
+						cst.vars[obj] = opv
+					}
+				} else {
+					cst.vars[obj] = opv
+				}
+			}
+		} else {
+			br := x.vc.fresh("tsw", "Bool")
+			x.assume(cst, br)
+			if obj := x.implicitObj(cc); obj != nil {
+				cst.vars[obj] = x.havocVal(cst, obj.Name(), obj.Type())
+			}
 		}
 		f := x.execBlock(cst, cc.Body)
 		ends = append(ends, f.normal)
 		ends = append(ends, f.breaks[""]...)
 		delete(f.breaks, "")
 		out.absorb(f)
+	}
+	if allPrecise {
+		if defaultClause != nil {
+			if obj := x.implicitObj(defaultClause); obj != nil {
+				rest.vars[obj] = opv
+			}
+			f := x.execBlock(rest, defaultClause.Body)
+			ends = append(ends, f.normal)
+			ends = append(ends, f.breaks[""]...)
+			delete(f.breaks, "")
+			out.absorb(f)
+		} else {
+			ends = append(ends, rest)
+		}
+		out.normal = x.merge(ends)
+		return out
 	}
 	if !hasDefault {
 		ends = append(ends, st)
@@ -1591,4 +1670,41 @@ func (x *Exec) aliasable(obj types.Object, rhs ast.Expr) bool {
 		}
 	}
 	return false
+}
+
+// boxFuncs declares (once) the constructor, inverse and tag of boxing values of v's Go type into
+// the interface sort ts. Returns (box, unbox, tag id).
+func (x *Exec) boxFuncs(v Val, ts string) (string, string, int) {
+	return x.boxFuncsFor(v.Sort, v.GoT, ts)
+}
+
+func (x *Exec) boxFuncsFor(srcSort string, got any, ts string) (string, string, int) {
+	key := srcSort
+	if t, ok := got.(types.Type); ok && t != nil {
+		if _, isIface := t.Underlying().(*types.Interface); !isIface {
+			key = typeKey(t)
+		}
+	}
+	name := sanitize(key)
+	if len(name) > 70 {
+		name = name[len(name)-70:]
+	}
+	box := "box_" + name + "_to_" + ts
+	unbox := "unbox_" + name + "_from_" + ts
+	tag := "dyntag_" + ts
+	if x.vc.tagIDs == nil {
+		x.vc.tagIDs = map[string]int{}
+	}
+	id, seen := x.vc.tagIDs[key+"|"+ts]
+	if !seen {
+		id = len(x.vc.tagIDs) + 1
+		x.vc.tagIDs[key+"|"+ts] = id
+		x.vc.declFun(box, []string{srcSort}, ts)
+		x.vc.declFun(unbox, []string{ts}, srcSort)
+		x.vc.declFun(tag, []string{ts}, "Int")
+		x.vc.fact(fmt.Sprintf("(forall ((a!b %s)) (! (and (= (%s (%s a!b)) a!b) (= (%s (%s a!b)) %d) (not (= (%s a!b) %s))) :pattern ((%s a!b))))",
+			srcSort, unbox, box, tag, box, id, box, x.vc.nilTerm(ts), box))
+		x.vc.termFact(fmt.Sprintf("(= (%s %s) 0)", tag, x.vc.nilTerm(ts)))
+	}
+	return box, unbox, id
 }
